@@ -144,12 +144,18 @@ public:
   static inline void (*event_hook)(const char* what, Self* self) = nullptr;
   // test knob: make the next create fail
   static inline bool fail_next_create = false;
+  // harness knob: called at the start of every same-sandbox (range) check, i.e. at a moment
+  // between two of RLBox's reads of sandbox memory that no RLBOX_VERIF_YIELD point marks
+  static inline void (*same_sandbox_hook)(const void* p1, const void* p2) = nullptr;
   // test knob: number of callback entry points new instances offer (<= NSlots)
   static inline unsigned default_usable_slots = NSlots;
   unsigned usable_slots = NSlots;
   // test knob: keep destroyed regions reserved (PROT_NONE) until release_deferred(), so
   // that region addresses are never reused within one execution
   static inline bool defer_unmap = false;
+  // harness knob: like many real plugins, do not clear the region base of a destroyed instance
+  // (its object then still "recognises" its former addresses if anybody asks it)
+  static inline bool keep_base_after_destroy = false;
   static inline std::vector<std::pair<void*, size_t>> deferred;
   static void release_deferred()
   {
@@ -281,7 +287,9 @@ protected:
       }
     }
     map_addr = nullptr;
-    base = 0;
+    if (!keep_base_after_destroy) {
+      base = 0;
+    }
     lib = nullptr;
     for (auto& e : table) {
       e = vm_table_entry{};
@@ -377,6 +385,9 @@ protected:
   // the same aligned 2^RegionBits block (imprecise for application memory)
   static inline bool impl_is_in_same_sandbox(const void* p1, const void* p2)
   {
+    if (same_sandbox_hook != nullptr) {
+      same_sandbox_hook(p1, p2);
+    }
     return (reinterpret_cast<uintptr_t>(p1) & ~RegionMask) == (reinterpret_cast<uintptr_t>(p2) & ~RegionMask);
   }
 #else
@@ -386,6 +397,9 @@ protected:
                                              const void* p2,
                                              Self* (*expensive_sandbox_finder)(const void* example_unsandboxed_ptr))
   {
+    if (same_sandbox_hook != nullptr) {
+      same_sandbox_hook(p1, p2);
+    }
     if (p1 == nullptr || p2 == nullptr) {
       return p1 == p2;
     }
